@@ -7,7 +7,7 @@
    process on the same directory); [spec_run] = the FIFO specification judging a trace;
    [pending q] = the blocks the state holds, read back by an independent frame parser;
    [reachable q st] = q is reached by a sequence the specification judges, ending in spec state st. *)
-From Verif Require Import Lib.Bytes C04.Model C04.Spec C04.Proofs.
+From Verif Require Import Lib.Bytes C04.Model C04.Spec C04.Drain C04.Proofs.
 From VerifGen Require Import Consts.
 Open Scope Z_scope.
 
@@ -231,6 +231,168 @@ Theorem split_spec_accepts_model :
 Proof. exact (@split_ok_model). Qed.
 Print Assumptions split_spec_accepts_model.
 
+(* ====================== the CONSUMER of the queue (Drain.v) ======================
+   Vocabulary: [svc] = the processor map (node, shard) -> processor of hh.Service; [sstep]/[srun] =
+   one / a sequence of operations: Service.WriteShard, NodeProcessor.SendWrite under every answer
+   of metaClient.DataNode (node / unknown / error) and of shardWriter.WriteShardBinary (ack / shard
+   gone / retryable error / permanent rejection) with an optional concurrent WriteShard between
+   queue.Current and the next queue call, the retry tick of run (SendWrite until an error), the
+   purge tick (PurgeOlderThan, ages as oracle), CloseIfEmpty, one pass of
+   purgeInactiveProcessors (known nodes and aged queues as oracles), RemoveNode, restart, and two
+   test hooks (raw Append, SetMaxSegmentSize).  Every step returns EVENTS (accept / writer call /
+   drop with its reason); [ledger k pend evs] replays the events of queue k on a FIFO and answers
+   None at the first event the property forbids (Drain.v, bottom).  [sop_ok]: a raw block is
+   non-empty and a segment limit is <= 2^62-8. *)
+
+(* For EVERY sequence of operations and every oracle, per (node, shard) queue: the ledger accepts
+   all events and ends with exactly the blocks still pending.  So a writer call is always for the
+   OLDEST pending block; a block leaves the queue only by a writer answer that is not a retryable
+   error (delivered / shard gone / permanently rejected) or by a drop of a prefix that names a
+   documented reason (undecodable: exactly that one block, which unmarshalWrite rejects; corrupt
+   or oversized record: Truncate; segment older than max-age; node removed / node unknown with
+   aged data: the whole queue); nothing else ever removes a block. *)
+Theorem consumer_events_satisfy_ledger :
+  forall maxsize cap ops k,
+    Forall sop_ok ops ->
+    ledger k [] (fst (srun (svc_init maxsize cap) ops))
+    = Some (pend_of k (snd (srun (svc_init maxsize cap) ops))).
+Proof. exact consumer_ledger. Qed.
+Print Assumptions consumer_events_satisfy_ledger.
+
+(* (a)+(b)+(d) spelled out: the accepted blocks of a queue are, in acceptance order, the released
+   ones followed by the pending ones; and the blocks handed to the writer, in call order, are the
+   accepted ones in acceptance order with omissions and only IMMEDIATE repetitions (a block is
+   re-sent only while it is the oldest pending one, never after a later block was sent). *)
+Theorem consumer_accounts_for_every_block_in_order :
+  forall maxsize cap ops k,
+    Forall sop_ok ops ->
+    let '(evs, s) := srun (svc_init maxsize cap) ops in
+    accepted k evs = released k evs ++ pend_of k s /\ stutter (sent k evs) (accepted k evs).
+Proof. exact consumer_accounts. Qed.
+Print Assumptions consumer_accounts_for_every_block_in_order.
+
+(* the same two facts for ANY event list the ledger accepts (what the ledger means) *)
+Theorem ledger_means_fifo_accounting :
+  forall k evs p p', ledger k p evs = Some p' -> p ++ accepted k evs = released k evs ++ p'.
+Proof. exact ledger_accounts. Qed.
+Print Assumptions ledger_means_fifo_accounting.
+
+Theorem ledger_means_in_order_sends :
+  forall k evs p p', ledger k p evs = Some p' -> stutter (sent k evs) (p ++ accepted k evs).
+Proof. exact sent_in_acceptance_order. Qed.
+Print Assumptions ledger_means_in_order_sends.
+
+(* every processor reached by any operation sequence satisfies the premise [good] used below *)
+Theorem reachable_processors_are_good :
+  forall maxsize cap ops k q,
+    Forall sop_ok ops -> find k (sv_procs (snd (srun (svc_init maxsize cap) ops))) = Some q -> good q.
+Proof. exact reachable_processors_good. Qed.
+Print Assumptions reachable_processors_are_good.
+
+(* (c) SendWrite that ends in a retryable writer error, finds the node unknown, or gets a meta
+   error removes NOTHING (blocks of a concurrent WriteShard are appended), unless the oldest block
+   is undecodable or larger than the segment limit (the two documented skips, taken before any write). *)
+Theorem retryable_failure_never_removes_a_block :
+  forall k m w mid q,
+    good q -> quiet w m = true ->
+    let q' := snd (send_write k m w mid q) in
+    exists acc, pending q' = pending q ++ acc \/
+      exists b, hd_error (pending q) = Some b /\ (um_ok b = false \/ zlen b > qmaxseg q).
+Proof. exact send_write_quiet. Qed.
+Print Assumptions retryable_failure_never_removes_a_block.
+
+(* (e) CloseIfEmpty never closes a processor that holds a block ... *)
+Theorem close_if_empty_never_closes_pending :
+  forall q closed q',
+    good q -> np_close_if_empty q = (closed, q') -> pending q <> [] -> closed = false /\ q' = q.
+Proof. exact close_if_empty_keeps. Qed.
+Print Assumptions close_if_empty_never_closes_pending.
+
+(* ... and a pass of purgeInactiveProcessors keeps a processor untouched or removes it; it removes
+   one that holds blocks only when the node is unknown to the meta data AND its data is aged, and
+   then records every block with that reason. *)
+Theorem purge_pass_removes_only_empty_or_inactive_aged :
+  forall active aged k q,
+    good q ->
+    match pass_entry active aged k q with
+    | (Some q', e) => q' = q /\ e = []
+    | (None, e) => ledger k (pending q) e = Some [] /\ Forall (fun x => ev_key x = k) e /\
+                   (pending q <> [] -> existsb (N.eqb (fst k)) active = false /\ existsb (key_eqb k) aged = true)
+    end.
+Proof. exact pass_entry_ledger. Qed.
+Print Assumptions purge_pass_removes_only_empty_or_inactive_aged.
+
+(* the age purge discards nothing when the head segment is not older than the limit, whatever
+   the ages of the segments behind it *)
+Theorem age_purge_spares_queue_with_young_head :
+  forall k old q h tl,
+    qsegs q = h :: tl -> existsb (N.eqb (sid h)) old = false -> age_purge k old q = ([], q).
+Proof. exact age_purge_young_head. Qed.
+Print Assumptions age_purge_spares_queue_with_young_head.
+
+(* RemoveNode(n) leaves the processors of every other node as they are *)
+Theorem remove_node_keeps_other_nodes :
+  forall node l k q, fst k <> node -> find k l = Some q -> find k (fst (remove_node node l)) = Some q.
+Proof. exact remove_node_scoped. Qed.
+Print Assumptions remove_node_keeps_other_nodes.
+
+(* the structure of the source the model follows, re-read by tools/genconsts on every run *)
+Theorem send_write_shape_is_the_sources : c04_shape = good_shape.
+Proof. exact c04_shape_ok. Qed.
+Print Assumptions send_write_shape_is_the_sources.
+
+Theorem consumer_structure_is_the_sources :
+  c04_sw_write_then_advance = true /\ c04_sw_branches_return = true /\ c04_sw_inactive_is_eof = true /\
+  c04_run_loops_until_error = true /\ c04_run_purges_by_max_age = true /\
+  c04_close_if_empty_one_section = true /\ c04_purge_pass_shape = true /\ c04_remove_node_scoped = true /\
+  c04_writer_drops_unknown_shard = true /\ c04_permanent_errors_are_conflict_and_partial = true.
+Proof. exact consumer_structure_facts. Qed.
+Print Assumptions consumer_structure_is_the_sources.
+
+(* the shapes SendWrite must not have, refuted on the model (witnesses replayed on the real code by
+   the designed harness cases; the first is the race repaired by commit 499fabe) *)
+Theorem eof_handled_with_advance_refuted :
+  let k := (2, 7)%N in
+  let q0 := q_init 1048576 1024 in
+  let q1 := snd (np_write 7 [pA] q0) in
+  let q2 := snd (send_write_with good_shape k MActive WAck [] q1) in
+  let '(c, e, q3) := send_write_with (mkShape 2 1 1 true false) k MActive WAck [pB] q2 in
+  pending q2 = [] /\ pending q3 = [] /\ accepted k e = [marshal_write 7 [pB]] /\ sent k e = [] /\
+  ledger k [] e = None /\
+  pending (snd (send_write_with good_shape k MActive WAck [pB] q2)) = [marshal_write 7 [pB]].
+Proof. exact eof_with_advance_refuted_l. Qed.
+Print Assumptions eof_handled_with_advance_refuted.
+
+Theorem advance_on_retry_or_before_write_refuted :
+  let k := (2, 7)%N in
+  let q1 := snd (np_write 7 [pA] (q_init 1048576 1024)) in
+  let '(_, e1, r1) := send_write_with (mkShape 2 3 1 false false) k MActive WRetry [] q1 in
+  let '(_, e2, r2) := send_write_with (mkShape 2 3 1 true true) k MActive WRetry [] q1 in
+  pending q1 = [marshal_write 7 [pA]] /\ pending r1 = [] /\ pending r2 = [] /\
+  ledger k (pending q1) e1 = None /\ ledger k (pending q1) e2 = None /\
+  pending (snd (send_write_with good_shape k MActive WRetry [] q1)) = pending q1.
+Proof. exact advance_on_retry_refuted_l. Qed.
+Print Assumptions advance_on_retry_or_before_write_refuted.
+
+Theorem truncate_on_unmarshal_error_refuted :
+  let k := (2, 7)%N in
+  let q1 := snd (appends (q_init 1048576 1024) [[1;2;3]%N; marshal_write 7 [pA]]) in
+  let '(_, e, r) := send_write_with (mkShape 2 3 2 true false) k MActive WAck [] q1 in
+  pending q1 = [[1;2;3]%N; marshal_write 7 [pA]] /\ pending r = [] /\ ledger k (pending q1) e = None.
+Proof. exact truncate_on_unmarshal_refuted_l. Qed.
+Print Assumptions truncate_on_unmarshal_error_refuted.
+
+(* the race repaired by commit fa83cce: a decision taken on a stale Empty() would delete a queue
+   that accepted a write in between; CloseIfEmpty refuses to close it *)
+Theorem stale_empty_check_refuted :
+  let q := q_init 1048576 1024 in
+  let q1 := snd (np_write 7 [pA] q) in
+  q_empty q = true /\ pending q1 = [marshal_write 7 [pA]] /\
+  pending (snd (q_close q1)) = [marshal_write 7 [pA]] /\
+  np_close_if_empty q1 = (false, q1).
+Proof. exact stale_empty_check_refuted_l. Qed.
+Print Assumptions stale_empty_check_refuted.
+
 (* ---------- non-vacuity ---------- *)
 
 (* a judged sequence with rollover, buffered appends, close, restart: 3 blocks pending at the end *)
@@ -263,3 +425,15 @@ Proof.
   - apply nbuf0_nobuf. pose proof (lk_nbuf _ _ _ L) as H. cbn in H. lia.
   - vm_compute. discriminate.
 Qed.
+
+(* a service run with two queues, a retry, a permanent rejection, an undecodable block, a write
+   during a send, node removal and a restart: the ledger accepts and a block is still pending *)
+Example consumer_nonvacuous :
+  let ops := [SWrite 2 7 [pA]; SWrite 2 7 [pB]; SWrite 3 7 [pA]; SRaw 2 7 [1;2;3]%N;
+              SSend 2 7 MActive WRetry []; SSend 2 7 MActive WAck [pB]; STick 2 7 MActive [WPerm; WAck];
+              SRemoveNode 3; SRestart; SSend 2 7 MInactive WAck []] in
+  Forall sop_ok ops /\
+  ledger (2, 7)%N [] (fst (srun (svc_init 1048576 1024) ops)) = Some [marshal_write 7 [pB]] /\
+  length (released (2, 7)%N (fst (srun (svc_init 1048576 1024) ops))) = 3%nat /\
+  released (3, 7)%N (fst (srun (svc_init 1048576 1024) ops)) = [marshal_write 7 [pA]].
+Proof. split; [repeat constructor; discriminate|vm_compute; repeat split]. Qed.
